@@ -102,14 +102,32 @@ func collectDeclDependencies(d Decl) []string {
 		}
 	}
 
+	// Attribute arguments are const-expressions and may name module constants
+	// (@align(A), @binding(B + 1), @workgroup_size(N)); attributes whose arguments
+	// are enumerant names (@builtin, @interpolate, ...) contribute nothing.
+	attrDeps := func(attrs []Attribute) {
+		for _, a := range attrs {
+			switch a.Name {
+			case "align", "size", "group", "binding", "location", "blend_src", "workgroup_size", "id":
+				for _, arg := range a.Args {
+					collectExprDeps(arg, nil, add)
+				}
+			}
+		}
+	}
+
 	switch d := d.(type) {
 	case *StructDecl:
 		for _, m := range d.Members {
 			collectTypeRefs(m.Type, add)
+			attrDeps(m.Attributes)
 		}
 	case *FunctionDecl:
+		attrDeps(d.Attributes)
+		attrDeps(d.ReturnAttrs)
 		for _, p := range d.Params {
 			collectTypeRefs(p.Type, add)
+			attrDeps(p.Attributes)
 		}
 		if d.ReturnType != nil {
 			collectTypeRefs(d.ReturnType, add)
@@ -123,6 +141,7 @@ func collectDeclDependencies(d Decl) []string {
 			collectBlockDeps(d.Body, locals, add)
 		}
 	case *VarDecl:
+		attrDeps(d.Attributes)
 		collectTypeRefs(d.Type, add)
 		if d.Init != nil {
 			collectExprDeps(d.Init, nil, add)
@@ -133,6 +152,7 @@ func collectDeclDependencies(d Decl) []string {
 			collectExprDeps(d.Init, nil, add)
 		}
 	case *OverrideDecl:
+		attrDeps(d.Attributes)
 		collectTypeRefs(d.Type, add)
 		if d.Init != nil {
 			collectExprDeps(d.Init, nil, add)
